@@ -211,41 +211,91 @@ def translate():
 
 # ------------------------------------------------------------------ generator
 
+DEGENERATE = [0.0, 0.0, 0.0, 1.0, -1.0, 1.0]
+
+
+def _point(rng, used, arr, n, degenerate):
+    vals = {}
+    for i in used:
+        m = n if arr[i] else 1
+        if degenerate:
+            mode = rng.random()
+            if mode < 0.35:        # the whole input is one degenerate value
+                d = rng.choice(DEGENERATE)
+                v = [d] * m
+            else:
+                v = [rng.choice(DEGENERATE) if rng.random() < 0.6 else rng.uniform(-3, 3) for _ in range(m)]
+        else:
+            v = [rng.choice([rng.uniform(-3, 3), rng.uniform(0.1, 2.5), rng.randint(-8, 8) / 4.0]) for _ in range(m)]
+        vals[str(i)] = v
+    return vals
+
+
+def _valid(tree, used, flat, n):
+    try:
+        for k in range(n):
+            env = [flat[str(j)][k if len(flat[str(j)]) > 1 else 0] if j in used else 0.0 for j in range(3)]
+            for w in used:
+                G.ev(tree, env, w)
+        return True
+    except (G.Reject, OverflowError, ZeroDivisionError, ValueError):
+        return False
+
+
 def gen_case(rng, tier, allowed):
+    """one ExecComp and a HISTORY of points: the first one (when the expression allows it) has inputs that are
+    exactly 0.0 / 1.0 / -1.0 (where partials vanish and the automatic coloring computes its sparsity), the
+    following ones are generic; outputs and partials are checked at every point on the same component object"""
     maxd = 3 if tier == 'quick' else 4
-    for _ in range(200):
+    for _ in range(400):
         nv = rng.randint(1, 3)
         tree = G.gen_tree(rng, rng.randint(1, maxd), nv)
         used = sorted(G.vars_used(tree))
         if not used or not G.names_used(tree) <= allowed:
             continue
-        shape = rng.choice([[], [], [3], [3], [2, 2], [4]])
+        shape = rng.choice([[], [], [3], [3], [2, 2], [4], [4]])
         n = 1
         for s in shape:
             n *= s
         arr = {i: (n > 1 and rng.random() < 0.75) for i in used}
         if n > 1 and not any(arr.values()):
             arr[used[0]] = True
-        inputs = {}
-        for i in used:
-            m = n if arr[i] else 1
-            inputs[str(i)] = [rng.choice([rng.uniform(-3, 3), rng.uniform(0.1, 2.5), rng.randint(-8, 8) / 4.0])
-                              for _ in range(m)]
-        try:
-            for k in range(n):
-                env = [inputs[str(j)][k if len(inputs[str(j)]) > 1 else 0] if j in used else 0.0 for j in range(3)]
-                for w in used:
-                    G.ev(tree, env, w)
-        except (G.Reject, OverflowError, ZeroDivisionError, ValueError):
+        npts = rng.choice([1, 2, 2, 2, 3])
+        pts = []
+        for j in range(npts):
+            flat = None
+            if j == 0 and npts > 1:
+                for _try in range(25):
+                    cand = _point(rng, used, arr, n, True)
+                    if _valid(tree, used, cand, n):
+                        flat = cand
+                        break
+            if flat is None:
+                for _try in range(25):
+                    cand = _point(rng, used, arr, n, False)
+                    if _valid(tree, used, cand, n):
+                        flat = cand
+                        break
+            if flat is None:
+                break
+            pts.append(flat)
+        if len(pts) != npts:
             continue
-        cfg = rng.choice(['default', 'default', 'diag', 'nocolor', 'shape_by_conn'])
-        sm = n > 1 and cfg != 'diag' and rng.random() < 0.2
-        inp = {}
-        for i in used:
-            v = inputs[str(i)]
-            inp[str(i)] = (_reshape(v, shape) if len(v) > 1 else v)
-        return {'tree': tree, 'vars': used, 'shape': shape if n > 1 else [], 'inputs': inp, 'flat': inputs,
-                'config': cfg, 'sum': sm, 'n': n}
+        cfg = rng.choice(['default', 'default', 'diag', 'nocolor', 'nocolor', 'shape_by_conn'])
+        sm = n > 1 and cfg != 'diag' and rng.random() < 0.35
+        points = []
+        for flat in pts:
+            inp = {}
+            for i in used:
+                v = flat[str(i)]
+                inp[str(i)] = (_reshape(v, shape) if len(v) > 1 else v)
+            points.append({'inputs': inp, 'flat': flat})
+        out_size1 = (n == 1) or sm
+        return {'tree': tree, 'vars': used, 'shape': shape if n > 1 else [], 'points': points,
+                'config': cfg, 'sum': sm, 'n': n,
+                # true scalars: shape () instead of (1,)
+                'yscalar': bool(out_size1 and cfg != 'shape_by_conn' and rng.random() < 0.5),
+                'inscalar': [i for i in used if not arr[i] and cfg != 'shape_by_conn' and rng.random() < 0.5]}
     raise RuntimeError('generator could not find a well-defined expression')
 
 
@@ -289,14 +339,16 @@ def env_of(c, k):
     vals = []
     for j in range(3):
         if j in c['vars']:
-            v = c['flat'][str(j)]
+            v = c['points'][-1]['flat'][str(j)]
             vals.append(R(v[k if len(v) > 1 else 0]))
         else:
             vals.append('0')
     return '(env_of_list [%s])' % '; '.join(vals)
 
 
-def lemma_for(i, c, res):
+def lemma_for(i, c, res_all):
+    res = res_all[-1]               # the last point of the history (all points go through the oracle)
+    flat = c['points'][-1]['flat']
     e = G.coq(c['tree'])
     n = c['n']
     ks = [0] if n == 1 else sorted({0, n - 1})
@@ -318,7 +370,7 @@ def lemma_for(i, c, res):
             cnt += 1
     for w in c['vars']:
         Jw = res['J'][str(w)]
-        isarr = len(c['flat'][str(w)]) > 1
+        isarr = len(flat[str(w)]) > 1
         if c['sum']:
             if isarr:
                 for l in ks:
@@ -366,17 +418,18 @@ def run_goal_files(wd, items, per_file):
     return ok, bad, errors, len(files)
 
 
-def offdiag_ok(c, res):
-    """elementwise jacobians are exactly diagonal (model: jac_entry = 0 off the diagonal)"""
+def offdiag_ok(c, res_all):
+    """elementwise jacobians are exactly diagonal (model: jac_entry = 0 off the diagonal), at every point"""
     if c['sum']:
         return True
-    for w in c['vars']:
-        if len(c['flat'][str(w)]) > 1:
-            Jw = res['J'][str(w)]
-            for k, row in enumerate(Jw):
-                for l, t in enumerate(row):
-                    if k != l and rq(t) != 0:
-                        return False
+    for pt, res in zip(c['points'], res_all):
+        for w in c['vars']:
+            if len(pt['flat'][str(w)]) > 1:
+                Jw = res['J'][str(w)]
+                for k, row in enumerate(Jw):
+                    for l, t in enumerate(row):
+                        if k != l and rq(t) != 0:
+                            return False
     return True
 
 
@@ -388,7 +441,8 @@ def main(tier):
     v.cov['rule'] = ('random well-defined expressions (depth <= 3 quick / 4 thorough) over the regenerated function '
                      'table and + - * / ** unary -, 1-3 variables, scalar / (3,) / (4,) / (2,2) shapes with scalar '
                      'broadcasting, y = e and y = sum(e), configurations default (coloring) / has_diag_partials / '
-                     'do_coloring=False / shape_by_conn')
+                     'do_coloring=False / shape_by_conn; true-scalar shape () outputs and inputs mixed with arrays; every '
+                     'component is linearized along a history of 1-3 points, the first with inputs exactly 0.0/1.0/-1.0')
     v.assumptions = ['binary64 rounding of the implementation is not modelled (1e-9 relative, interval-checked)',
                      'points are generated away from kinks and poles (margins in exprgen.py); the smoothness of '
                      'each expression at its point is itself an interval-checked goal']
@@ -413,7 +467,7 @@ def main(tier):
         v.cov['broken_detail'] = log[-3000:]
         return v.finish()
     for c, r in zip(cases, results):
-        v.count_case({'src': r.get('src'), 'inputs': c['inputs'], 'config': c['config']}, True, r.get('kind'))
+        v.count_case({'src': r.get('src'), 'points': [p_['inputs'] for p_ in c['points']], 'config': c['config']}, True, r.get('kind'))
         if not r.get('ok', True):
             v.failing(r.get('sig') or 'oracle', c, r.get('msg', ''))
     if gate['build_ok']:
@@ -454,7 +508,7 @@ def main(tier):
         res2, _ = run_impl(IMPL, extra, wd, tag='search', jobs=min(4, core.NCPU))
         if res2 is not None:
             for c, r in zip(extra, res2):
-                v.count_case({'src': r.get('src'), 'inputs': c['inputs']}, True, r.get('kind'))
+                v.count_case({'src': r.get('src'), 'points': [p_['inputs'] for p_ in c['points']]}, True, r.get('kind'))
                 if not r.get('ok', True):
                     v.failing(r.get('sig') or 'oracle', c, r.get('msg', ''))
     return v.finish()
